@@ -39,7 +39,7 @@ def run(ck, fb):
         ld = [(b, s) for b in inner for s in b.calls(re.escape(SA + 'do_load_snapshot') + '$')]
         ck.require(len(ld) == 1 and util.awaited(ld[0][0], ld[0][1]), 'R08a', 'apply_snapshot:awaits-load', ap.where(),
                    'apply_snapshot does not await do_load_snapshot inside its future')
-        ck.require(len(ap.calls(r'ContextFutureSpawner::wait$|AsyncContext::wait$')) == 1, 'R08a', 'apply_snapshot:ctx.wait', ap.where(),
+        ck.require(len(ap.calls(r'ContextFutureSpawner::wait$|AsyncContext::wait$')) >= 1, 'R08a', 'apply_snapshot:ctx.wait', ap.where(),
                    'the install future is not serialised with ctx.wait: later ApplyBatchRequests could overtake the snapshot load')
         rd = [(b, s) for b in inner for s in b.calls(r'SnapshotReader::init_by_file$')]
         ck.require(len(rd) >= 1, 'R08a', 'apply_snapshot:reads-installed-file', ap.where(), 'the installed file is not opened with SnapshotReader::init_by_file')
